@@ -49,7 +49,7 @@ NETWORKS = [
 
 def bounds(tier):
     if tier == "quick":
-        return dict(H="6 fixed networks x {greedy, caterpillar}, K=2, 21 operations, <=8 states carried to level 2, <=25 paths per (state, op)",
+        return dict(H="6 fixed networks x {greedy, caterpillar}, K=2, 21 operations, <=16 states carried to level 2 (round-robin over the kinds of the last operations), <=25 paths per (state, op)",
                     S="skeletons N<=3 rank<=2 (every 7th), all trees, <=2 indices sliced/projected then restored in any order, sizes symbolic >= 2")
     return dict(H="9 fixed networks, K=3, 31 operations, <=80 states per level", S="skeletons N<=3 (every 2nd) + N=4 (every 8th), <=3 indices")
 
@@ -173,7 +173,7 @@ def run_H(item, rec):
 
     n_states = history.explore_histories(
         rec, initial_states(t0, labels, size), menu, K, check, env,
-        max_states_per_level=int(__import__("os").environ.get("VERIF_HIST_STATES", 8 if tier == "quick" else 80)),
+        max_states_per_level=int(__import__("os").environ.get("VERIF_HIST_STATES", 16 if tier == "quick" else 80)),
         max_paths_per_op=(25 if tier == "quick" else 400),
         deadline_per_op=(4.0 if tier == "quick" else 25.0),
     )
